@@ -160,6 +160,8 @@ func (c *Cluster) execOp(s *Step) {
 		c.opRejoin(s)
 	case "reff":
 		c.opReFastForward(s)
+	case "pilereff":
+		c.opPileReFF(s)
 	case "suspend":
 		if n := c.nodeAt(s.A); n != nil && n.running() {
 			c.drainTasksOf(n)
